@@ -1873,13 +1873,18 @@ def c05_exact(inp):
         ctx = f"order {n}, Nch={nch}, Nref={nref}, Nf={nf}, dt={dt}, sgn_basf={sgn}, ordmax={ordmax}, trial {trial}"
         try:
             Ad, Bn = plscf.pLSCF(Sy, dt, ordmax, sgn_basf=sgn)
+        except np.linalg.LinAlgError:
+            if ordmax > n:
+                continue        # exact order-n data fitted at order n+1: exactly rank-deficient normal equations (not a well-conditioned case)
+            return {"reproduced": True, "detail": f"pLSCF raised LinAlgError at the data's own order ({ctx})"}
         except Exception as e:      # noqa: BLE001
             return {"reproduced": True, "detail": f"pLSCF raised {type(e).__name__}: {e} ({ctx})"}
         Ae, Be = np.asarray(Ad[n - 1]), np.asarray(Bn[n - 1])
         if Ae.shape != (n + 1, nch, nch) or Be.shape != (n + 1, nref, nch):
             return {"reproduced": True, "detail": f"pLSCF: order-{n} model has shapes {Ae.shape}, {Be.shape} ({ctx})"}
         sc = max(1.0, max(np.abs(a).max() for a in A))
-        if max(np.abs(Ae[r] - A[r]).max() for r in range(n + 1)) > 1e-6 * sc or max(np.abs(Be[r] - B[r]).max() for r in range(n + 1)) > 1e-6 * sc * 10:
+        # (a broken estimator misses by 1e-1 and more; 1e-4 leaves room for the conditioning of the normal equations)
+        if max(np.abs(Ae[r] - A[r]).max() for r in range(n + 1)) > 1e-4 * sc or max(np.abs(Be[r] - B[r]).max() for r in range(n + 1)) > 1e-4 * sc * 10:
             return {"reproduced": True, "detail": f"pLSCF: the order-{n} model does not reproduce the denominator/numerator coefficients of the exact right matrix fraction "
                                                   f"(max |dA| = {max(np.abs(Ae[r] - A[r]).max() for r in range(n + 1)):.2e}, max |dB| = {max(np.abs(Be[r] - B[r]).max() for r in range(n + 1)):.2e}; {ctx})"}
         # poles: roots of det A(x) = 0 mapped to continuous time
@@ -1892,13 +1897,15 @@ def c05_exact(inp):
         lam = np.log(roots) / dt
         keep = lam[np.real(lam) <= 0]
         try:
-            Fn, Xi, Phi, Lam = plscf.pLSCF_poles(Ad, Bn, dt, "per", 2 * (nf - 1))
+            # orders up to the data's own order: a model of higher order fitted to exact order-n data is rank deficient
+            # (its leading coefficient block may be singular) - outside "well-conditioned"
+            Fn, Xi, Phi, Lam = plscf.pLSCF_poles(Ad[:n], Bn[:n], dt, "per", 2 * (nf - 1))
         except Exception as e:      # noqa: BLE001
             return {"reproduced": True, "detail": f"pLSCF_poles raised {type(e).__name__}: {e} ({ctx})"}
         col = n - 1
         got = Lam[:, col]
         fin = ~np.isnan(got)
-        if Fn.shape != Xi.shape or Fn.shape != Lam.shape or Fn.shape[1] != ordmax or Phi.shape != Fn.shape + (nref,) \
+        if Fn.shape != Xi.shape or Fn.shape != Lam.shape or Fn.shape[1] != n or Phi.shape != Fn.shape + (nref,) \
                 or not (np.array_equal(np.isnan(Fn[:, col]), ~fin) and np.array_equal(np.isnan(Xi[:, col]), ~fin)
                         and np.array_equal(np.all(np.isnan(Phi[:, col, :]), axis=1), ~fin)):
             return {"reproduced": True, "detail": f"pLSCF_poles: table shapes {Fn.shape}/{Xi.shape}/{Phi.shape}/{Lam.shape} or the NaN patterns of the tables differ at order {n} ({ctx})"}
@@ -1906,9 +1913,9 @@ def c05_exact(inp):
             return {"reproduced": True, "detail": f"pLSCF_poles: order {n} reports {int(np.sum(fin))} poles, det A(x) has {len(keep)} of {n * nch} roots with non-positive real part ({ctx})"}
         for lk in keep:
             j = int(np.argmin(np.where(fin, np.abs(got - lk), np.inf)))
-            if abs(got[j] - lk) > 1e-6 * max(1, abs(lk)):
+            if abs(got[j] - lk) > 1e-4 * max(1, abs(lk)):
                 return {"reproduced": True, "detail": f"pLSCF_poles: root {lk:.5f} of det A is not reported at order {n} (nearest {got[j]:.5f}) ({ctx})"}
-            if abs(Fn[j, col] - abs(lk) / (2 * np.pi)) > 1e-6 * max(1, abs(lk)) or abs(Xi[j, col] + lk.real / abs(lk)) > 1e-6:
+            if abs(Fn[j, col] - abs(lk) / (2 * np.pi)) > 1e-4 * max(1, abs(lk)) or abs(Xi[j, col] + lk.real / abs(lk)) > 1e-4:
                 return {"reproduced": True, "detail": f"pLSCF_poles: pole {lk:.5f}: fn={Fn[j, col]:.6f}, xi={Xi[j, col]:.6f}, expected {abs(lk) / (2 * np.pi):.6f}, {-lk.real / abs(lk):.6f} ({ctx})"}
     return {"reproduced": False, "detail": f"pLSCF recovers the coefficients and reports the roots of det A on {ntr} exact right matrix fractions"}
 
